@@ -22,8 +22,12 @@ for id in "${ids[@]}"; do
     C05b|C05c) export VERIF_VDENSE=region/compressor.go,region/multi.go,hrpc/mutate.go,hrpc/get.go,hrpc/scan.go; extra=" (statement-dense build)";;
     *) unset VERIF_VDENSE;;
   esac
-  unset RACE
-  if [ "$id" = revert-388177c ]; then export RACE=1; n=2400; extra=" (free -race build)"; fi
+  unset RACE RACECTL
+  case $id in
+    revert-388177c|C09g|C09j|C09k|C09l|C09m) export RACE=1 RACECTL=" "; n=6400; extra=" (controlled race build)";;
+    C09h) export RACE=1 RACECTL=" "; n=6400; prof=c19; extra=" (controlled race build)";;
+    C09i) export RACE=1 RACECTL=" "; n=6400; prof=c14; extra=" (controlled race build)";;
+  esac
   if ! git -C /repo apply --check $d/patch.diff 2>/dev/null; then
     echo -e "$id\t$prop\t$prof\t-\tpatch does not apply to /repo HEAD (superseded by a later fix)" | tee -a $OUT; continue
   fi
